@@ -12,6 +12,8 @@
 (* mirrors section 8 (Bytes); nothing else of the harness is trusted.      *)
 (*   section 2  abstract values                                            *)
 (*   section 3  number literals (RFC 8259 grammar, integer literal, range) *)
+(*   section 3b what a number reader would make of the characters of a      *)
+(*              STRING (a classification that nothing may depend on)       *)
 (*   section 4  Canon: the canonical text of a value  (the oracle)         *)
 (*   section 5  Parse: a total, validating reader token text -> value      *)
 (*   section 6  the canonical form as a *predicate* on texts               *)
@@ -155,6 +157,71 @@ MantissaZero(l, i) ==
 NegZeroLoose(l) == Len(l) > 2 /\ l[1] = 45 /\ MantissaZero(l, 2)
 
 \* ------------------------------------------------------------------------
+\* 3b. Kinds do not cross.  The room-version-6 rule speaks of NUMBERS: values
+\*    written by the number production of the grammar.  A string (or an
+\*    object key) is a string whatever its characters are: "1e400",
+\*    "18446744073709551616", "Infinity" are not numbers, nothing of the rule
+\*    applies to them and they are canonicalised as any other string.
+\*    NumLook(s) is what a number reader applied to the CHARACTERS of s would
+\*    find (the JSON number grammar first, then the lenient spellings that
+\*    strtod / ParseFloat / ECMAScript Number() accept).  No operator of the
+\*    oracle reads it; it exists so that the scenarios cover every class of it
+\*    (CanonJSON_gen: families numstr / lenient / keynum), so that a
+\*    disagreement can name the class, and so that KindsDoNotCross (section 9)
+\*    can say it has no effect.
+\* ------------------------------------------------------------------------
+LowerB(b) == IF b >= 65 /\ b <= 90 THEN b + 32 ELSE b
+LowerS(s) == [i \in 1..Len(s) |-> LowerB(s[i])] \o <<>>
+\* surrounding blanks and one sign are what lenient readers skip
+RECURSIVE TrimL(_)
+TrimL(s) == IF s # <<>> /\ Head(s) \in {32, 9, 10, 13} THEN TrimL(Tail(s)) ELSE s
+RECURSIVE TrimR(_)
+TrimR(s) == IF s # <<>> /\ s[Len(s)] \in {32, 9, 10, 13} THEN TrimR(SubSeq(s, 1, Len(s) - 1)) ELSE s
+Unsigned(s) == IF s # <<>> /\ Head(s) \in {43, 45} THEN Tail(s) ELSE s
+NoUnderscore(s) == SelectSeq(s, LAMBDA b : b # 95)
+InfNanWords == { <<105,110,102>>, <<105,110,102,105,110,105,116,121>>, <<110,97,110>> }      \* inf infinity nan
+IsHexDigit(b) == IsDigit(b) \/ (b >= 97 /\ b <= 102)
+\* 0x, hex digits with at most one point, optionally p [sign] digits (letters already in lower case)
+HexFloatLook(u) ==
+    /\ Len(u) > 2 /\ u[1] = 48 /\ u[2] = 120
+    /\ LET body == SubSeq(u, 3, Len(u))
+           ps   == {i \in DOMAIN body : body[i] = 112}
+       IN /\ Cardinality(ps) <= 1
+          /\ LET pe   == IF ps = {} THEN Len(body) + 1 ELSE CHOOSE i \in ps : TRUE
+                 mant == SubSeq(body, 1, pe - 1)
+                 ex   == Unsigned(SubSeq(body, pe + 1, Len(body)))
+             IN /\ \E i \in DOMAIN mant : IsHexDigit(mant[i])
+                /\ \A i \in DOMAIN mant : IsHexDigit(mant[i]) \/ mant[i] = 46
+                /\ Cardinality({i \in DOMAIN mant : mant[i] = 46}) <= 1
+                /\ (ps # {} => ex # <<>> /\ \A i \in DOMAIN ex : IsDigit(ex[i]))
+\* a decimal spelling outside the JSON grammar: leading + or zeros, a point without digits on one side, underscores
+LenientStep(st, b) ==
+    CASE st = "start" -> (IF IsDigit(b) THEN "int" ELSE IF b = 46 THEN "dot0" ELSE "bad")
+      [] st = "int"   -> (IF IsDigit(b) THEN "int" ELSE IF b = 46 THEN "frac" ELSE IF IsE(b) THEN "e" ELSE "bad")
+      [] st = "dot0"  -> (IF IsDigit(b) THEN "frac" ELSE "bad")
+      [] st = "frac"  -> (IF IsDigit(b) THEN "frac" ELSE IF IsE(b) THEN "e" ELSE "bad")
+      [] st = "e"     -> (IF b \in {43, 45} THEN "esign" ELSE IF IsDigit(b) THEN "exp" ELSE "bad")
+      [] st = "esign" -> (IF IsDigit(b) THEN "exp" ELSE "bad")
+      [] st = "exp"   -> (IF IsDigit(b) THEN "exp" ELSE "bad")
+      [] OTHER        -> "bad"
+RECURSIVE LenientRun(_, _, _)
+LenientRun(l, i, st) == IF i > Len(l) THEN st ELSE LenientRun(l, i + 1, LenientStep(st, l[i]))
+LenientDecLook(u) == LenientRun(u, 1, "start") \in {"int", "frac", "exp"}
+
+LitLook(l) == IF NumAdmissible(l) THEN "integer-in-range"
+              ELSE IF IsIntLit(l) THEN "integer-out-of-range"
+              ELSE "fraction-or-exponent"
+NumLook(s) ==
+    IF IsNumLit(s) THEN LitLook(s)
+    ELSE LET t == TrimR(TrimL(s))
+             u == LowerS(Unsigned(t))
+         IN IF u \in InfNanWords THEN "inf-nan-word"
+            ELSE IF HexFloatLook(NoUnderscore(u)) THEN "hex-float"
+            ELSE IF LenientDecLook(NoUnderscore(u)) /\ u # <<>> /\ u[1] # 95 /\ u[Len(u)] # 95
+                 THEN (IF t # s THEN "number-in-blanks" ELSE "lenient-decimal")
+            ELSE "none"
+
+\* ------------------------------------------------------------------------
 \* 4. Canon(v): the canonical text of a value  (Matrix appendix "Canonical
 \*    JSON": keys sorted by code point, no insignificant whitespace, strings
 \*    escape only " \ and the control characters, those with the two-character
@@ -208,6 +275,21 @@ LitsOf(v) == IF v.k = "num" THEN <<v.s>> ELSE LitsOfSeq(v.c, 1)
 
 InadmissibleLits(v) == SelectSeq(LitsOf(v), LAMBDA l : ~NumAdmissible(l))
 HasNegZeroLit(v) == \E i \in DOMAIN LitsOf(v) : LitsOf(v)[i] = NegZeroLit
+
+\* every string of a value (object keys and string values), in document order, and the number looks among them
+RECURSIVE StrsOf(_)
+RECURSIVE StrsOfSeq(_, _)
+StrsOfSeq(c, i) == IF i > Len(c) THEN <<>>
+                   ELSE (IF c[i].key # <<>> THEN <<c[i].key>> ELSE <<>>) \o StrsOf(c[i].val) \o StrsOfSeq(c, i + 1)
+StrsOf(v) == IF v.k = "str" THEN <<v.s>> ELSE StrsOfSeq(v.c, 1)
+LooksOf(v) == LET ss == StrsOf(v) IN SelectSeq([i \in DOMAIN ss |-> NumLook(ss[i])], LAMBDA x : x # "none")
+
+\* the same document with every number written between quotes: the characters stay, the kind changes
+RECURSIVE Quoted(_)
+Quoted(v) ==
+    CASE v.k = "num" -> VStr(v.s)
+      [] v.k \in {"arr", "obj"} -> [v EXCEPT !.c = [i \in 1..Len(v.c) |-> Mem(v.c[i].key, Quoted(v.c[i].val))] \o <<>>]
+      [] OTHER -> v
 
 RECURSIVE HasDupKeys(_)
 HasDupKeys(v) ==
@@ -362,8 +444,10 @@ VARIABLES scen,     \* history: the scenario (value to write and budget)
           status,   \* "valid" | "invalid" | "illformed" | "dupkeys": class of the text once finished
           bud,      \* remaining budget
           cor,      \* history: the Corrupt action taken, or "none"
+          nums,     \* history: the literals written AS NUMBERS (by EmitNumber), in text order; what EmitChar writes
+                    \* between quotes never gets here, whatever the characters are
           phase     \* "start" | "writing" | "done"
-vars == <<scen, todo, text, status, bud, cor, phase>>
+vars == <<scen, todo, text, status, bud, cor, nums, phase>>
 
 It(k, v, s)  == [k |-> k, v |-> v, s |-> s]
 ValItem(v)   == It("val", v, <<>>)
@@ -383,17 +467,20 @@ InitWith(S) == /\ scen \in S
                /\ status = (IF HasDupKeys(scen.v) THEN "dupkeys" ELSE "valid")
                /\ bud = [ws |-> scen.ws, sp |-> scen.sp, perm |-> scen.perm, cor |-> scen.cor]
                /\ cor = "none"
+               /\ nums = <<>>
                /\ phase = "start"
 Init == InitWith(Scenarios)
 
 Start == /\ phase = "start"
          /\ phase' = "writing"
-         /\ UNCHANGED <<scen, todo, text, status, bud, cor>>
+         /\ UNCHANGED <<scen, todo, text, status, bud, cor, nums>>
 
 \* write(ts, rest): append tokens ts, continue with the work stack rest
-Write(ts, rest) == /\ text' = text \o ts
-                   /\ todo' = rest
-                   /\ UNCHANGED <<scen, status, cor, phase>>
+WriteN(ts, rest, ns) == /\ text' = text \o ts
+                        /\ todo' = rest
+                        /\ nums' = nums \o ns
+                        /\ UNCHANGED <<scen, status, cor, phase>>
+Write(ts, rest) == WriteN(ts, rest, <<>>)
 
 \* insignificant whitespace: between any two tokens, before the first and after the last
 EmitWs(w) == /\ Writing /\ ~InString /\ bud.ws > 0
@@ -411,7 +498,7 @@ EmitScalar == /\ Writing /\ todo # <<>> /\ Top.k = "val" /\ Top.v.k \in {"null",
 EmitNumber(l) == /\ Writing /\ todo # <<>> /\ Top.k = "val" /\ Top.v.k = "num"
                  /\ \/ l = Top.v.s /\ UNCHANGED bud
                     \/ Top.v.s = Zero /\ l = NegZeroLit /\ bud.sp > 0 /\ bud' = [bud EXCEPT !.sp = @ - 1]
-                 /\ Write(NumToks(l), Tail(todo))
+                 /\ WriteN(NumToks(l), Tail(todo), <<l>>)
 
 RECURSIVE ElemItems(_, _)
 ElemItems(c, i) == IF i > Len(c) THEN <<>>
@@ -448,13 +535,13 @@ CloseString == /\ Writing /\ todo # <<>> /\ Top.k = "cq"
 
 Finish == /\ Writing /\ todo = <<>>
           /\ phase' = "done"
-          /\ UNCHANGED <<scen, todo, text, status, bud, cor>>
+          /\ UNCHANGED <<scen, todo, text, status, bud, cor, nums>>
 
 \* --- Corrupt: at most one per text; afterwards the rest is written plainly ---
 Spoil(kind, st, ts, rest) == /\ Writing /\ bud.cor /\ cor = "none"
                              /\ cor' = kind /\ status' = st /\ bud' = NoBudget
                              /\ text' = text \o ts /\ todo' = rest
-                             /\ UNCHANGED <<scen, phase>>
+                             /\ UNCHANGED <<scen, nums, phase>>
 
 BadNums == { <<48,49>>, <<43,49>>, <<46,53>>, <<49,46>>, <<45>>, <<49,101>>, <<49,101,43>>,
              <<45,48,49>>, <<49,46,101,50>>, <<48,48>>, <<45,46,53>> }
@@ -584,4 +671,26 @@ PresentationDenotesValue == Done /\ status = "valid" => SameValue(Parse(text).v,
 CanonUnique == Done /\ status = "valid" => Canon(Parse(text).v) = Canon(scen.v)
 \* a text that is its own canonical form is exactly a text satisfying the predicate
 CanonicalIffFixed == Done /\ status = "valid" => (IsCanonicalText(text) <=> text = Canon(scen.v))
+
+\* Kinds do not cross (section 3b).
+\* (1) the numbers the reader finds in a finished text are exactly the literals the writer wrote as numbers, in order:
+\*     nothing written between quotes is ever a number, so the enforced verdict is a function of nums alone
+KindsDoNotCross == Done /\ status = "valid" =>
+                       LET v == Parse(text).v IN
+                       /\ LitsOf(v) = nums
+                       /\ EnforcedMustReject(v) <=> \E i \in DOMAIN nums : ~NumAdmissible(nums[i])
+\* (2) the document with every number between quotes holds no number at all: every room version accepts it, the
+\*     literals are kept character by character as strings, and the looks of its strings include the looks of the
+\*     literals (so the families built with Quoted cover every class the number families cover; the Quoted
+\*     documents of the num family are scenarios themselves - numstr A -, so CanonDenotesValue ... CanonIsCanonical
+\*     are checked for them as for every scenario)
+RECURSIVE CharsKept(_, _)
+CharsKept(lits, strs) == lits = <<>> \/ (\E i \in DOMAIN strs : strs[i] = Head(lits) /\ CharsKept(Tail(lits), SubSeq(strs, i + 1, Len(strs))))
+QuotedIsNoNumber == AtStart => LET q     == Quoted(scen.v)
+                                   lits  == LitsOf(scen.v)
+                                   looks == LooksOf(q)
+                                   lset  == {looks[j] : j \in DOMAIN looks}
+                               IN /\ LitsOf(q) = <<>> /\ ~EnforcedMustReject(q)
+                                  /\ CharsKept(lits, StrsOf(q))
+                                  /\ \A i \in DOMAIN lits : LitLook(lits[i]) \in lset
 =============================================================================
